@@ -64,6 +64,14 @@ def run(tier, out):
         resw = tlc.run_tlc(wd, "MC_Units", "SPECIFICATION Spec\nINVARIANT MaxRawAlwaysRight\n", workers=8, timeout=900)
         if not (resw.error and "MaxRawAlwaysRight" in resw.out):
             raise MachineryError("MC_Units did not produce the expected counterexample for MaxRawAlwaysRight")
+        # unbounded counterparts of three of the laws (every natural magnitude, every positive unit factor): TLAPS proofs
+        pr = tlc.run_tlapm(wd, "EFUnitsProofs")
+        out.extra["tlaps"] = {"module": "EFUnitsProofs", "theorems": ["ReexpressionKeepsBase", "MaxAwareIsUnitSafe", "MulIsUnitSafe",
+                                                                          "MaxRawRightInSameUnit"],
+                              "available": pr["available"], "obligations_proved": pr["proved"], "obligations_failed": pr["failed"],
+                              "wall_s": pr["wall_s"]}
+        if pr["available"] and pr["failed"] != 0:
+            raise MachineryError("the TLAPS proofs of EFUnitsProofs no longer check (the proofs concern the model, not the code):\n" + pr["tail"])
         ns = efx.load()
         base = seed_from_env() * 100000
         n_models = 5 if tier == "quick" else 20
